@@ -328,7 +328,8 @@ class Derived(Harness):
                 if d.dtype == object:
                     d = np.array(d.tolist(), dtype=complex)
                 if d.size and np.max(np.abs(d)) > (
-                        1e-5 if kind is np.float32 else 1e-8):
+                        1e-5 if kind is np.float32 else 1e-8) * max(
+                            1.0, scale):
                     bad.append(name)
         try:
             for op in hist:
@@ -369,7 +370,8 @@ class Derived(Harness):
         from pysym.runner import ConcreteViolation
         for seq in cfg['seqs'][:6]:
             hist = [cfg['first'], 'W'] + list(seq)
-            for scale, kind in ((1e-12, None), (1e-9, None), (1e6, None),
+            for scale, kind in ((1e-24, None), (1e-18, None), (1e-12, None),
+                                (1e-9, None), (1e6, None), (1e12, None),
                                 (1.0, np.float32), (1.0, np.int64),
                                 (1.0, np.int32), (1.0, 'int'),
                                 (1.0, np.float64)):
